@@ -141,14 +141,15 @@ def find_duplicate_path(text: str, dup_key: str) -> list:
 
     def walk(node: Any, path: list) -> bool:
         if isinstance(node, Node):
+            # innermost first, the order in which the strict parser meets them
+            for k, v in node:
+                if walk(v, path + [k]):
+                    return True
             keys = [k for k, _ in node]
             if len(set(keys)) != len(keys):
                 dup = next(k for k in keys if keys.count(k) > 1)
                 found.extend(path + [dup])
                 return True
-            for k, v in node:
-                if walk(v, path + [k]):
-                    return True
         elif isinstance(node, list):
             for idx, v in enumerate(node):
                 if walk(v, path + [idx]):
@@ -257,9 +258,9 @@ def judge_envelope(doc: Any, kind: str, mode: str, version: str, has_body: bool)
     if kind in EXPECTED_TYPE and isinstance(doc.get('type'), str):
         need(doc['type'] == EXPECTED_TYPE[kind], 'type-value')
     if mode == 'c' and kind != 'packets' and kind in WITH_DIRECTION:
-        need(isinstance(doc.get('header'), str) and re.fullmatch(r'[0-9A-Fa-f]{38}', doc.get('header', '')) is not None, 'header')
+        need(isinstance(doc.get('header'), str) and re.fullmatch(r'(0x)?[0-9A-Fa-f]{38}', doc.get('header', '')) is not None, 'header')
         if has_body:
-            need(isinstance(doc.get('body'), str) and re.fullmatch(r'[0-9A-Fa-f]*', doc.get('body', '')) is not None, 'body')
+            need(isinstance(doc.get('body'), str) and re.fullmatch(r'(0x)?[0-9A-Fa-f]*', doc.get('body', '')) is not None, 'body')
     nb = doc.get('neighbor')
     need(isinstance(nb, dict), 'neighbor')
     if isinstance(nb, dict):
@@ -317,6 +318,9 @@ def judge_taint(doc: Any, benign_doc: Any, taints: list) -> tuple[list, int]:
     keys: list = []
     values: list = []
     strings_of(doc, keys, values)
+    benign_keys: list = []
+    if benign_doc is not None:
+        strings_of(benign_doc, benign_keys, [])
     visible = 0
     for t in taints:
         raw = bytes.fromhex(t['hex'])
@@ -325,6 +329,8 @@ def judge_taint(doc: Any, benign_doc: Any, taints: list) -> tuple[list, int]:
         forms = taint_forms(raw)
         texts = [f for f in forms[:2] if len(f.strip()) >= 2]
         for k in keys:
+            if k in benign_keys:
+                continue
             if any(f in k for f in texts):
                 problems.append(Problem('taint-in-key', t['label'], f'peer string {raw[:40]!r} is part of the key {k[:80]!r}'))
                 break
@@ -366,7 +372,7 @@ def judge_text(string: str, kind: str, lines_expected: int, peer: str, packet_li
     for idx, line in enumerate(lines):
         if line.startswith(prefix):
             continue
-        if kind in ('update', 'eor') and packet_line and idx == len(lines) - 2 and re.fullmatch(r' header [0-9A-Fa-f]+( body [0-9A-Fa-f]+)?', line):
+        if kind in ('update', 'eor') and packet_line and idx == len(lines) - 2 and re.fullmatch(r' header (0x)?[0-9A-Fa-f]+( body (0x)?[0-9A-Fa-f]+)?', line):
             continue  # the documented raw packet line of a consolidated update
         problems.append(Problem('line-prefix', '', f'line {idx} does not start with {prefix!r}: {line[:160]!r}'))
         break
@@ -375,9 +381,25 @@ def judge_text(string: str, kind: str, lines_expected: int, peer: str, packet_li
 
 _WORD = re.compile(r'([A-Za-z][A-Za-z0-9_-]{2,})[ (:\[]')
 
+# what introduces a value in the text renderings (capabilities, attributes by their text name, BGP-LS TLV names)
+VOCABULARY = [
+    'hostname(', 'software(', 'unknown capability', 'multiprotocol(', 'graceful restart', 'addpath', 'multisession',
+    'advisory "', 'node name:', 'link name:', 'opaque', 'bgp-ls', 'bgp-prefix-sid', 'attribute [', 'pmsi', 'tunnel-encap', 'aigp',
+    'extended-community', 'large-community', 'community', 'as-path', 'aggregator', 'cluster-list', 'originator-id', 'origin',
+    'local-preference', 'med', 'next-hop', 'label', 'rd ', 'path-information', 'flow', 'evpn', 'vpls', 'mup', 'mvpn', 'sr-policy', 'srv6',
+]
+
 
 def text_culprit(line: str, pos: int) -> str:
-    """the last keyword before `pos`: which rendering let the character through"""
+    """the last value introducer before `pos`: which rendering let the character through"""
+    head = line[:pos].lower()
+    best, where = '', -1
+    for token in VOCABULARY:
+        at = head.rfind(token)
+        if at > where:
+            best, where = token, at
+    if best:
+        return best.strip(' (:["').replace(' ', '-')
     words = _WORD.findall(line[:pos])
     skip = {'neighbor', 'receive', 'send', 'update', 'announced', 'withdrawn'}
     for w in reversed(words):
@@ -386,9 +408,12 @@ def text_culprit(line: str, pos: int) -> str:
     return ''
 
 
-def non_ascii_culprit(string: str) -> str:
+def non_ascii_culprit(string: str, taints: list | None = None) -> str:
     for line in string.split('\n'):
         for i, ch in enumerate(line):
             if ord(ch) > 127:
+                for t in taints or []:
+                    if ch in bytes.fromhex(t['hex']).decode('utf-8', 'replace'):
+                        return t['label']
                 return text_culprit(line, i)
     return ''
